@@ -9,6 +9,9 @@ TRUST = ("Trusted base: Go type checker and go/ssa construction (x/tools v0.29.0
 
 # id -> (claimed?, technique, level text, not-decided / note, design ref)
 P = {
+ "C13": (True, "static analysis: enumeration of panicking constructs on the decode path with dominance-checked guards and a reasoned table with machine-checked side conditions; sibling agreement (frame table, direction table) between encoder and decoder",
+         "Decides that no unguarded panicking construct exists on gorums' part of the decode path, that gorumsMarshal and gorumsUnmarshal agree on the frame table and AllowPartial, the direction table (request/response types), the error defaults of the codec's type switches, status transport, and that a message-carrying reply is delivered only when its method matches the pending call's. Necessary structural conditions; value round-trip equality is delegated to protobuf.",
+         "Not decided: round-trip equality for every value; panics inside protobuf/gRPC.", "DESIGN.md section 3, C13"),
  "C18": (True, "static analysis: insertion/deletion pairing over the router model, frozen goroutine lifetime table with per-class termination rules, escape check on per-call allocations",
          "Decides that router entries are inserted at one site and removed on every delivery/answer path (re-using the C05/C07/C06/C09 rules), that every go statement of the client runtime is classified per node / per request / per call and satisfies its class's termination rule, and that reply channels and reply maps are not stored into shared state. Necessary structural conditions.",
          "Not decided: measured goroutine counts and memory; per-reconnect context leaks.", "DESIGN.md section 3, C18"),
